@@ -413,6 +413,24 @@ func (w *cworld) applyExt(op extOp) {
 		md(cur)["labels"] = op.Data
 		delete(md(cur), "resourceVersion")
 		w.srv.Seed(cur)
+	case "unfinalize": // metacontroller's own finalizers are gone from the live object (an earlier sync took them off)
+		if cur == nil {
+			return
+		}
+		var keep []interface{}
+		fs, _ := md(cur)["finalizers"].([]interface{})
+		for _, f := range fs {
+			if fstr, _ := f.(string); !strings.HasPrefix(fstr, "metacontroller.io/") {
+				keep = append(keep, f)
+			}
+		}
+		if len(keep) == 0 {
+			delete(md(cur), "finalizers")
+		} else {
+			md(cur)["finalizers"] = keep
+		}
+		delete(md(cur), "resourceVersion")
+		w.srv.Seed(cur)
 	case "relabel-merge": // the labels named change (nil: go away), the others stay
 		if cur == nil {
 			return
